@@ -147,7 +147,12 @@ func dumpFunc(p *Prog, name string) {
 	g := NewGate(p)
 	g.Search = os.Getenv("UFCHECK_SEARCH") != ""
 	if os.Getenv("UFCHECK_NOINLINE") != "" {
-		g.Inline = inlineOnly()
+		g.Inline = inlineOnly(strings.Split(os.Getenv("UFCHECK_NOINLINE"), ",")...)
+	}
+	for _, n := range strings.Split(os.Getenv("UFCHECK_PURE"), ",") {
+		if n != "" {
+			g.Pure[n] = true
+		}
 	}
 	var s *Summary
 	switch len(parts) {
